@@ -25,7 +25,8 @@ def match(prop, violation):
     for entry in load().get('findings', []):
         if entry.get('status', 'open') != 'open' or entry['property'] != prop:
             continue
-        if entry['cls'] != violation['cls']:
+        cls = entry['cls']
+        if violation['cls'] not in (cls if isinstance(cls, list) else [cls]):
             continue
         facts = violation.get('facts', {})
         ok = True
